@@ -174,8 +174,11 @@ def variant(cls, params, key, first_positional=None):
         if route == "copy_kw" and first_positional is None and params:
             return cls().copy(**params)
         if route == "positional" and params:
-            sig = [n for n, q in inspect.signature(cls.__init__).parameters.items()
-                   if n != "self" and q.kind in (q.POSITIONAL_ONLY, q.POSITIONAL_OR_KEYWORD)]
+            try:    # the documented order (recorded from the pinned source), not whatever the class says today
+                sig = list(json.load(open(os.path.join(os.path.dirname(__file__), "anchors.json")))["_signatures"][cls.__name__])
+            except Exception:  # noqa: BLE001
+                sig = [n for n, q in inspect.signature(cls.__init__).parameters.items()
+                       if n != "self" and q.kind in (q.POSITIONAL_ONLY, q.POSITIONAL_OR_KEYWORD)]
             sig = sig[len(args):]
             pos, rest = [], dict(params)
             for n in sig:           # a prefix of the positional parameters, the rest by keyword
